@@ -646,3 +646,81 @@ func Verif_C10_object_keys() {
 	verifrt.Cover("keys computed")
 	verifrt.Assert(verifrt.Equal(got, want), "per-object key is MD5(file key, 3 bytes of the number, 2 bytes of the generation[, sAlT])")
 }
+
+// Verif_C10_many_strings: k encrypted strings (k = 0..40, each drawing an
+// initialisation vector under AES) precede a stream of more than 1024 bytes
+// whose dictionary, written late, holds a string as well; the reference
+// handler decrypts every string and the stream.
+func Verif_C10_many_strings() {
+	defer verifFixRand()()
+	verifrt.Unwind(40000)
+	v := []Version{V1_6, V2_0, V1_4}[verifrt.Choice("version", 2+verifrt.Tier())]
+	k := verifrt.Len("k", 0, 40)
+	var buf bytes.Buffer
+	w, err := NewWriter(&buf, v, &WriterOptions{
+		ID:           [][]byte{[]byte("0123456789abcdef"), []byte("0123456789abcdef")},
+		UserPassword: "u", OwnerPassword: "owner",
+	})
+	verifrt.Assert(err == nil, "NewWriter with passwords succeeds")
+	if err != nil {
+		return
+	}
+	filler := []byte("filler string")
+	refs := make([]Reference, k)
+	for i := range refs {
+		refs[i] = w.Alloc()
+		verifrt.Assert(w.Put(refs[i], Dict{"S": String(append([]byte{}, filler...))}) == nil, "Put succeeds")
+	}
+	body := make([]byte, 1100)
+	for i := range body {
+		body[i] = byte(i*7 + i/256)
+	}
+	stmRef := w.Alloc()
+	ws, err := w.OpenStream(stmRef, Dict{"T": String(append([]byte{}, filler...))})
+	verifrt.Assert(err == nil, "OpenStream succeeds")
+	ws.Write(body)
+	verifrt.Assert(ws.Close() == nil, "stream closes")
+	w.GetMeta().Catalog.Pages = w.Alloc()
+	verifrt.Assert(w.Close() == nil, "Close succeeds")
+	file := buf.Bytes()
+
+	f := sReadXRef(file)
+	verifrt.Assert(f.ok, "strict reader reads the cross-reference data")
+	if !f.ok {
+		return
+	}
+	s, ok := refFromFile(f, file, []byte("0123456789abcdef"))
+	verifrt.Assert(ok, "Encrypt dictionary is well formed")
+	if !ok {
+		return
+	}
+	var fk []byte
+	if s.R >= 5 {
+		fk, ok = s.auth6([]byte("u"))
+	} else {
+		fk, ok = s.authUser([]byte("u"))
+	}
+	verifrt.Assert(ok, "reference authenticates the user password")
+	verifrt.Cover("reference handler set up")
+	all := true
+	for _, ref := range refs {
+		v, _, okv := f.get(file, int64(ref.Number()))
+		dd, _ := v.(Dict)
+		ct, _ := dd["S"].(String)
+		pt, okd := s.decrypt(fk, ref.Number(), ref.Generation(), ct)
+		if !okv || !okd || !bytes.Equal(pt, filler) {
+			all = false
+		}
+	}
+	verifrt.Assert(all, "reference decrypts every string")
+	sv, stm, oks := f.get(file, int64(stmRef.Number()))
+	verifrt.Assert(oks && stm != nil, "strict reader finds the stream")
+	if stm != nil {
+		pt, okd := s.decrypt(fk, stmRef.Number(), stmRef.Generation(), stm.data)
+		verifrt.Assert(okd && bytes.Equal(pt, body), "reference decrypts the stream")
+		dd, _ := sv.(Dict)
+		ct, _ := dd["T"].(String)
+		pt, okd = s.decrypt(fk, stmRef.Number(), stmRef.Generation(), ct)
+		verifrt.Assert(okd && bytes.Equal(pt, filler), "reference decrypts the string in the stream dictionary")
+	}
+}
